@@ -191,26 +191,32 @@ void do_op(W& w, const POp& p, int tid, RoundState& rs, std::vector<std::future<
     }
     if constexpr (FAM == F_ORDERED) {
         if (p.op == MODIFY) {
-            w.modify([&](Cell& c) { excl_body(c, p, res); });
+            auto fn = [&](Cell& c) { excl_body(c, p, res); };
+            if (p.id % 2) w.modify(vrf::one_shot(fn));  // rvalue of a value-category-sensitive callable
+            else w.modify(fn);
             res.success = true;
         }
         if (p.op == MODIFY_RET) {
-            int n = w.modify([&](Cell& c) {
+            auto fn = [&](Cell& c) {
                 excl_body(c, p, res);
                 return static_cast<int>(c.n);
-            });
+            };
+            int n = (p.id % 2) ? w.modify(vrf::one_shot(fn)) : w.modify(fn);
             (void)n;
             res.success = true;
         }
         if (p.op == READ) {
-            w.read([&](const Cell& c) { shared_body(c, p, res, rs); });
+            auto fn = [&](const Cell& c) { shared_body(c, p, res, rs); };
+            if (p.id % 2) w.read(vrf::one_shot(fn));
+            else w.read(fn);
             res.success = true;
         }
         if (p.op == READ_RET) {
-            int n = w.read([&](const Cell& c) {
+            auto fn = [&](const Cell& c) {
                 shared_body(c, p, res, rs);
                 return static_cast<int>(c.n);
-            });
+            };
+            int n = (p.id % 2) ? w.read(vrf::one_shot(fn)) : w.read(fn);
             (void)n;
             res.success = true;
         }
@@ -262,23 +268,26 @@ void do_op(W& w, const POp& p, int tid, RoundState& rs, std::vector<std::future<
         if (p.op == DETACH) {
             POp pc = p;
             RoundState* rsp = &rs;
-            w.modify_detach([pc, rsp](Cell& c) {
+            auto fn = [pc, rsp](Cell& c) {
                 OpResult dummy{};
                 excl_body(c, pc, dummy);
                 rsp->functor_runs[pc.id % 64].fetch_add(1, std::memory_order_relaxed);
-            });
+            };
+            if (p.id % 2) w.modify_detach(vrf::one_shot(fn));
+            else w.modify_detach(fn);
             res.success = true;
             res.wrote = true;
         }
         if (p.op == ASYNC) {
             POp pc = p;
             RoundState* rsp = &rs;
-            auto fut = w.modify_async([pc, rsp](Cell& c) {
+            auto fn = [pc, rsp](Cell& c) {
                 OpResult dummy{};
                 excl_body(c, pc, dummy);
                 rsp->functor_runs[pc.id % 64].fetch_add(1, std::memory_order_relaxed);
                 return static_cast<int>(c.n);
-            });
+            };
+            auto fut = (p.id % 2) ? w.modify_async(vrf::one_shot(fn)) : w.modify_async(fn);
             if (futs) futs->push_back(std::move(fut));
             res.success = true;
             res.wrote = true;
